@@ -42,3 +42,12 @@ pub proof fn lemma_capacity_independent(a: BulletproofGens<P>, b: BulletproofGen
     ensures a.g_vec@[i]@[j] == b.g_vec@[i]@[j], a.h_vec@[i]@[j] == b.h_vec@[i]@[j]
 {
 }
+// C12 / C03: two parameter sets agree on every vector generator both of them contain (party-major order)
+pub open spec fn gens_prefix_agree(a: RangeParameters<P>, b: RangeParameters<P>) -> bool {
+    let ga = AggregatedGensIter::walk(&a.bp_gens.g_vec, a.bp_gens.gens_capacity, a.bp_gens.party_capacity, 0, 0);
+    let gb = AggregatedGensIter::walk(&b.bp_gens.g_vec, b.bp_gens.gens_capacity, b.bp_gens.party_capacity, 0, 0);
+    let ha = AggregatedGensIter::walk(&a.bp_gens.h_vec, a.bp_gens.gens_capacity, a.bp_gens.party_capacity, 0, 0);
+    let hb = AggregatedGensIter::walk(&b.bp_gens.h_vec, b.bp_gens.gens_capacity, b.bp_gens.party_capacity, 0, 0);
+    &&& forall|q: int| 0 <= q < ga.len() && q < gb.len() ==> *(#[trigger] ga[q]) == *gb[q]
+    &&& forall|q: int| 0 <= q < ha.len() && q < hb.len() ==> *(#[trigger] ha[q]) == *hb[q]
+}
